@@ -74,7 +74,20 @@ def main():
     results = {}
     graphs = {}
     notes = {"cache_cleared": 0}
+    from einxverif.props import c13
+
+    def with_factories(case, arrays):
+        if not case.get("fkinds"):
+            return arrays
+        log = c13.Log()
+        out = []
+        for i, (a, m, k) in enumerate(zip(arrays, case["fmask"], case["fkinds"])):
+            out.append(c13.make_factory(k, i, a, log)[0] if m else a)
+        return out
+
     for idx in cfg["order"]:
+        if idx >= len(corpus):
+            continue
         case = corpus[idx]
         outs = []
         for rep in range(cfg["reps"][idx]):
@@ -82,11 +95,14 @@ def main():
                 arrays = G.build_arrays(case)
                 for j, newshape in (case.get("corrupt_shape") or {}).items():
                     arrays[int(j)] = np.zeros(newshape, dtype=arrays[int(j)].dtype)
-                outs.append(digest(c01.call_einx(case, arrays)))
+                outs.append(digest(c01.call_einx(case, with_factories(case, arrays))))
             except Exception as e:  # noqa: BLE001
                 outs.append(["exc", type(e).__name__])
         results[str(idx)] = outs
-        # two graph=True requests: warm cache, then after clearing the operation's cache
+        # two graph=True requests: warm cache, then after clearing the operation's cache (every child checks
+        # a third of the entries, so that all entries are covered by some child at a third of the cost)
+        if (idx + cfg.get("child_index", 0)) % 3 != 0:
+            continue
         try:
             arrays = G.build_arrays(case)
             g1 = c01.call_einx(case, arrays, graph=True)
